@@ -9,10 +9,16 @@
      Match(p, a):   p = T                 T := a
                     p = q[]   a = b[]     Match(q, b)
                     p = table<q1, q2>, a = table<b1, b2>     Match(q1, b1) and Match(q2, b2)
-                    p = q?    a not nullable                 Match(q, a)
+                    p = q?    any a                          Match(q, a)
+                       (`q?` is the union pattern q|nil: every member of a union pattern is matched against
+                        the WHOLE argument and the nil member binds nothing -- union_tpl_pattern_match; so
+                        `fun(x: T?): T` called with an `X?` argument instantiates T := X?, the argument's type,
+                        which is what "substituting the argument types" says; stripping the argument's nil
+                        (T := X) would be a different, narrower answer)
                     p = fun(): q,  a = fun(): b              Match(q, b)
-                    anything else (different shape, nullable argument for q?, a parameter bound twice to
-                    different types)  is AMBIGUOUS: the reference has no unique answer, not judged.
+                    anything else (different shape, e.g. an optional / union argument for q[] or
+                    table<q1, q2>; a parameter bound twice to different types)  is AMBIGUOUS: the reference
+                    has no unique answer, not judged.
 
    Literal widening (crates/emmylua_code_analysis/src/semantic/generic/widening.rs): a type parameter
    bound to a bare literal type is instantiated with the literal's base type (1 -> integer, 's' -> string,
@@ -24,7 +30,10 @@
    type for replay (`local r = f(a1, ..)` in a VirtualWorkspace).  *)
 EXTENDS TypeAlgebra, Json
 
-CONSTANTS AtomNames, SibNames, KeyNames, ArgKinds, TemplateNames
+CONSTANTS AtomNames, SibNames, KeyNames, ArgKinds, TemplateNames,
+          Depth3From,    \* kinds of depth-2 argument types nested once more ...
+          Depth3Cons,    \* ... by these constructors (nested arrays of optionals, table<K, V?[]>, ..)
+          SecondArgKinds \* kinds of constructed types also used as the second argument of two-parameter templates
 
 VARIABLE c
 
@@ -46,6 +55,12 @@ Template(n) ==
     [] n = "swap" -> <<"swap", <<Map(K, V)>>, Map(V, K)>>              \* table<K, V> -> table<V, K>
     [] n = "nest" -> <<"nest", <<Arr(Arr(T))>>, Arr(T)>>               \* T[][] -> T[]
     [] n = "optarr" -> <<"optarr", <<Arr(T)>>, Opt(T)>>                \* T[] -> T?
+    [] n = "optid" -> <<"optid", <<Opt(T)>>, Opt(T)>>                  \* T? -> T?
+    [] n = "optwrap" -> <<"optwrap", <<Opt(T)>>, Arr(T)>>              \* T? -> T[]
+    [] n = "optelem" -> <<"optelem", <<Arr(Opt(T))>>, T>>              \* (T?)[] -> T
+    [] n = "optval" -> <<"optval", <<Map(K, Opt(V))>>, V>>             \* table<K, V?> -> V
+    [] n = "unoptarr" -> <<"unoptarr", <<Opt(Arr(T))>>, T>>            \* T[]? -> T
+    [] n = "mkopt" -> <<"mkopt", <<K, Opt(V)>>, Map(K, V)>>            \* (K, V?) -> table<K, V>
 
 Atom(n) == IF n \in {"nil", "boolean", "integer", "number", "string", "table", "any"} THEN Prim(n)
            ELSE IF n \in LitIds THEN LitById(n)
@@ -67,7 +82,11 @@ Cons(S, R) ==
   (IF "gen" \in ArgKinds THEN {Gen("G", <<a>>) : a \in S} ELSE {})
 D1 == Cons(A0, R0)
 D2 == Cons(D1, R0)
-ArgTypes == A0 \cup D1 \cup D2
+D3 == LET S == {x \in D2 : Kind(x) \in Depth3From} IN
+      (IF "opt" \in Depth3Cons THEN {Opt(a) : a \in {x \in S : ~HasNil(x)}} ELSE {}) \cup
+      (IF "arr" \in Depth3Cons THEN {Arr(a) : a \in S} ELSE {}) \cup
+      (IF "map" \in Depth3Cons THEN {Map(k, a) : k \in K0, a \in S} ELSE {})
+ArgTypes == A0 \cup D1 \cup D2 \cup D3
 
 \* ---- reference matcher: result <<ok, bindings>>, bindings a set of <<param name, term>>
 RECURSIVE Match(_, _), HasTpl(_)
@@ -80,7 +99,7 @@ Match(p, a) ==
          [] Kind(p) = "map" -> IF Kind(a) = "map"
                                THEN Both(Match(Kids(p)[1], Kids(a)[1]), Match(Kids(p)[2], Kids(a)[2]))
                                ELSE <<FALSE, {}>>
-         [] Kind(p) = "opt" -> IF HasNil(a) THEN <<FALSE, {}>> ELSE Match(Kids(p)[1], a)
+         [] Kind(p) = "opt" -> Match(Kids(p)[1], a)      \* union pattern q|nil: q against the whole argument
          [] Kind(p) = "fun0" -> IF Kind(a) = "fun0" THEN Match(Kids(p)[1], Kids(a)[1]) ELSE <<FALSE, {}>>
          [] OTHER -> <<FALSE, {}>>
 RECURSIVE MatchAll(_, _, _)
@@ -91,14 +110,18 @@ TplNames(p) == IF Kind(p) = "tpl" THEN {Name(p)} ELSE UNION {TplNames(Kids(p)[i]
 
 \* literal widening of a bound type
 Widen(a) == IF Kind(a) = "lit" THEN Prim(LitBase(Name(a))) ELSE a
+\* t? of an instantiated t: a type that is already nullable stays as it is (X?? = X?, nil? = nil)
+MkOpt(t) == IF HasNil(t) THEN t ELSE Opt(t)
 RECURSIVE Apply(_, _)
 Apply(t, bs) == IF Kind(t) = "tpl" THEN Widen((CHOOSE x \in bs : x[1] = Name(t))[2])
+                ELSE IF Kind(t) = "opt" THEN MkOpt(Apply(Kids(t)[1], bs))
                 ELSE Mk(Kind(t), Name(t), [i \in 1..Len(Kids(t)) |-> Apply(Kids(t)[i], bs)])
 
 \* a case: template name and argument tuple
 Arity(n) == Len(Template(n)[2])
 Cases == UNION {{<<n, as>> : as \in [1..Arity(n) -> ArgTypes]} : n \in {m \in TemplateNames : Arity(m) = 1}} \cup
-         UNION {{<<n, <<a, b>>>> : a \in A0 \cup D1, b \in A0} : n \in {m \in TemplateNames : Arity(m) = 2}}
+         UNION {{<<n, <<a, b>>>> : a \in A0 \cup D1, b \in A0 \cup {x \in D1 : Kind(x) \in SecondArgKinds}} :
+                n \in {m \in TemplateNames : Arity(m) = 2}}
 Init == c \in Cases
 Next == UNCHANGED c
 Spec == Init /\ [][Next]_c
@@ -107,7 +130,6 @@ Tmpl == Template(c[1])
 M == MatchAll(Tmpl[2], c[2], 1)
 \* judged iff the reference has a unique answer that binds every parameter of the return type
 Judged == M[1] /\ Functional(M[2]) /\ TplNames(Tmpl[3]) \subseteq {x[1] : x \in M[2]}
-\* `a?` where the result would already be nullable, `nil?`: the annotation syntax has no distinct spelling
 Expected == Apply(Tmpl[3], M[2])
 
 \* ---- sanity laws of the reference
@@ -115,6 +137,21 @@ Closed == Judged => ~HasTpl(Expected)
 IdLaw == (c[1] = "id") => Judged /\ Expected = Widen(c[2][1])
 \* instantiation commutes with the container: elem(wrap-result) gives back the widened argument
 ElemWrap == (c[1] = "wrap" /\ Judged) => Match(Arr(T), Expected)[2] = {<<"T", Widen(c[2][1])>>}
+\* an optional parameter takes the argument as it is: T? -> T behaves like the identity, on every argument
+\* (in particular an optional argument keeps its nil), and T? -> T? only adds nil
+OptLaw == /\ (c[1] = "unopt") => Judged /\ Expected = Widen(c[2][1])
+          /\ (c[1] = "optid") => Judged /\ Expected = MkOpt(Widen(c[2][1]))
+\* the expected type is a well-formed term: no optional of a nullable type
+RECURSIVE WellFormed(_)
+WellFormed(t) == /\ Kind(t) = "opt" => ~HasNil(Kids(t)[1])
+                 /\ \A i \in 1..Len(Kids(t)) : WellFormed(Kids(t)[i])
+ExpectedWf == Judged => WellFormed(Expected)
+
+\* coverage flag: a pattern with an optional part receives an argument with a nullable part
+RECURSIVE AnyOpt(_), AnyNil(_)
+AnyOpt(p) == Kind(p) = "opt" \/ \E i \in 1..Len(Kids(p)) : AnyOpt(Kids(p)[i])
+AnyNil(a) == HasNil(a) \/ \E i \in 1..Len(Kids(a)) : AnyNil(Kids(a)[i])
+OptNil == \E i \in 1..Len(c[2]) : AnyOpt(Tmpl[2][i]) /\ AnyNil(c[2][i])
 
 SetSeq(S) == CHOOSE f \in [1..Cardinality(S) -> S] : \A i, j \in 1..Cardinality(S) : i # j => f[i] # f[j]
 Decl(tm) == [generics |-> SetSeq(UNION {TplNames(tm[2][i]) : i \in 1..Len(tm[2])}),
@@ -125,6 +162,7 @@ Emit == PrintT(<<"CASE", ToJson([tpl |-> c[1], decl |-> Decl(Tmpl),
                                  argnorm |-> [i \in 1..Len(c[2]) |-> Norm(c[2][i])],
                                  argskel |-> [i \in 1..Len(c[2]) |-> Skel(c[2][i])],
                                  judged |-> Judged,
+                                 optnil |-> OptNil,
                                  expected |-> IF Judged THEN Norm(Expected) ELSE Norm(TNil),
                                  expected_syntax |-> IF Judged THEN Syn(Expected) ELSE ""])>>)
 ASSUME PrintT(<<"WORLD", ToJson([classes |-> [A |-> <<"B">>, B |-> <<>>],
